@@ -626,6 +626,8 @@ def _global_rmse(rc: RuleCtx):
     penv = {"points": pts, segname: seg}
     fr2.block(post, penv, TRUE)
     val = mk_pw(fr2.returns)
+    from .common import account_returns
+    account_returns(fi)            # (the value returned after the loop is compared with the reference just below)
     want = anf.f_sqrt(anf.f_sum(seg, sym("S")) / sym("n"))
     if isinstance(val, Rat) and val.equals(want):
         res.ok("U6", f"{fi.qualname}:final", "sqrt(sum(segment SSE) / len(points))")
